@@ -772,7 +772,7 @@ static char *read_include_filename(Token **rest, Token *tok, bool *is_dquote) {
     // Find closing ">".
     for (; !equal(tok, ">"); tok = tok->next)
       if (tok->at_bol || tok->kind == TK_EOF)
-        error_tok(tok, "expected '>'");
+        error_tok(start, "expected '>'");
 
     *is_dquote = false;
     *rest = skip_line(tok->next);
